@@ -710,11 +710,13 @@ func (obj *SparseReal32Matrix) JointIterator(b ConstMatrix) MatrixJointIterator 
 }
 func (obj *SparseReal32Matrix) ITERATOR() *SparseReal32MatrixIterator {
   r := SparseReal32MatrixIterator{*obj.values.ITERATOR(), obj}
+  r.skip()
   return &r
 }
 func (obj *SparseReal32Matrix) ITERATOR_FROM(i, j int) *SparseReal32MatrixIterator {
   k := obj.index(i, j)
   r := SparseReal32MatrixIterator{*obj.values.ITERATOR_FROM(k), obj}
+  r.skip()
   return &r
 }
 func (obj *SparseReal32Matrix) JOINT_ITERATOR(b ConstMatrix) *SparseReal32MatrixJointIterator {
@@ -735,6 +737,21 @@ type SparseReal32MatrixIterator struct {
 }
 func (obj *SparseReal32MatrixIterator) Index() (int, int) {
   return obj.m.ij(obj.SparseReal32VectorIterator.Index())
+}
+func (obj *SparseReal32MatrixIterator) Next() {
+  obj.SparseReal32VectorIterator.Next()
+  obj.skip()
+}
+// skip elements of the underlying storage that are not
+// part of this matrix (i.e. if the matrix is a slice)
+func (obj *SparseReal32MatrixIterator) skip() {
+  for obj.Ok() {
+    i, j := obj.Index()
+    if i >= 0 && i < obj.m.rows && j >= 0 && j < obj.m.cols {
+      break
+    }
+    obj.SparseReal32VectorIterator.Next()
+  }
 }
 func (obj *SparseReal32MatrixIterator) Clone() *SparseReal32MatrixIterator {
   return &SparseReal32MatrixIterator{*obj.SparseReal32VectorIterator.Clone(), obj.m}
